@@ -79,6 +79,8 @@ class Dialogue:
         self.rid_of = {}  # id(result dict) -> rid
         self._attributed = set()  # ids of exceptions already attributed to a (nested) call
         self.active = True
+        self.resume_status = []  # (call index, trial, backend status just before `resume_trial`)
+        self.probe = None  # optional: number of busy workers in the backend's truth, sampled at every call
 
     # -- tokens
     def key(self, name):
@@ -113,6 +115,8 @@ class Dialogue:
         if not self.active:
             return fn()
         e = {"call": call, "ans": None}
+        if self.probe is not None:
+            e["_occ"] = self.probe()
         idx = len(self.entries)
         self.entries.append(e)
         if self.inject_at is not None and idx == self.inject_at:
@@ -242,6 +246,8 @@ def wrap_backend(be, dlg):
                         lambda: o_start(config=config, checkpoint_trial_id=checkpoint_trial_id))
 
     def resume(trial_id, new_config=None):
+        td = be._trial_dict.get(trial_id)
+        dlg.resume_status.append((len(dlg.entries), int(trial_id), getattr(td, "status", None)))
         return dlg.call(["be", "resume", int(trial_id), None if new_config is None else dlg.cfg_token(new_config)],
                         lambda: o_resume(trial_id=trial_id, new_config=new_config))
 
@@ -286,6 +292,10 @@ class ClockStub:
         if self.first:  # TuningStatus.__init__ : start_time
             self.first = False
             return 0.0
+        f = sys._getframe(1)
+        by_criterion = f.f_code.co_name == "wallclock_time" and f.f_back is not None and f.f_back.f_code.co_name == "__call__"
+        if not by_criterion:  # e.g. str(tuning_status) printed in the finaliser
+            return self.now
         self.now += self.step * self.rng.randint(0, 3)
         return self.dlg.call(["clock"], lambda: self.now, lambda v: {"t": frac_str(v)})
 
@@ -316,6 +326,10 @@ class ScriptBackend(TrialBackend):
         self.resume_missing = []
         self.metric_names = params.get("metric_names", [METRIC])
         self.deleted = []
+        self.dlg = None
+
+    def occupancy(self):
+        return sum(1 for t in self.truth.values() if t["status"] in (Status.in_progress, Status.stopping))
 
     # -- abstract methods
     def entrypoint_path(self):
@@ -442,7 +456,13 @@ class ScriptBackend(TrialBackend):
                 break
             self._emit(tid, t)
         if run.next_r > end_r and self.rng.random() < self.p.get("p_end_same_poll", 0.5):
-            t["status"] = run.fate
+            self._end(t, run)
+
+    def _end(self, t, run):
+        """the run ends by itself (completes / fails / is stopped from outside)"""
+        t["status"] = run.fate
+        t["ended_at"] = len(self.dlg.entries) if self.dlg is not None else 0
+        t["runs_ended"] = t.get("runs_ended", 0) + 1
 
     def _all_trial_results(self, trial_ids):
         out = []
@@ -462,7 +482,7 @@ class ScriptBackend(TrialBackend):
                 end_r = run.last if run.fail_at is None else run.fail_at
                 while run.next_r <= end_r:
                     self._emit(tid, t)
-                t["status"] = run.fate
+                self._end(t, run)
             elif t["status"] == Status.stopping:
                 self._advance(tid)
         return [(tid, t["status"]) for tid, t in self.truth.items() if t["status"] in (Status.in_progress, Status.stopping)]
@@ -767,6 +787,11 @@ def run_loop(spec):
         tuning_status_module.time = ClockStub(dlg, random.Random(spec["seed"] + 99), spec.get("clock_step", 0.25))
         wrap_scheduler(sch, dlg)
         wrap_backend(be, dlg)
+        if sim:
+            dlg.probe = lambda: len(be._busy_trial_ids)
+        else:
+            be.dlg = dlg
+            dlg.probe = be.occupancy
         tuner = Tuner(
             trial_backend=be, scheduler=sch, stop_criterion=crit, n_workers=spec["n_workers"], sleep_time=0,
             results_update_interval=-1 if spec.get("store_every") else 3600, print_update_interval=3600,
@@ -774,6 +799,14 @@ def run_loop(spec):
             wait_trial_completion_when_stopping=flags.get("wait", False), callbacks=callbacks, suffix_tuner_name=False,
             save_tuner=False, start_jobs_without_delay=flags.get("swd", True),
         )
+        o_stopc = tuner._stop_condition
+
+        def stop_condition():
+            v = o_stopc()
+            rec.crit_trace.append((len(dlg.entries), bool(v)))
+            return v
+
+        tuner._stop_condition = stop_condition
         ckpt_cb = any(type(c).__name__ == "RemoveCheckpointsCallback" for c in tuner.callbacks)
         other_cb = [type(c).__name__ for c in tuner.callbacks[len(callbacks):] if type(c).__name__ != "RemoveCheckpointsCallback"]
         raised, raised_obj = None, None
@@ -820,7 +853,10 @@ def run_loop(spec):
             "metric_keys": [dlg.key(n) for n in names], "modes": mode if isinstance(mode, list) else [mode] * 1,
             "mode_is_list": isinstance(mode, list),
         }
+        sp = spec["scheduler"]
+        label = sp["kind"] + (":" + sp["type"] if "type" in sp else "") + (":" + sp["searcher"] if "searcher" in sp else "")
         return {"dlg": dlg, "header": header, "final": final, "rows": rows, "tuner": tuner, "backend": be, "scheduler": sch,
+                "sched_label": label, "spec_criterion": spec["criterion"], "spec": spec,
                 "recorder": rec, "names": names, "tmp": tmp, "other_cb": other_cb, "store": store,
                 "raised_obj": raised_obj}
     finally:
@@ -833,3 +869,539 @@ def run_loop(spec):
 
 def cleanup(t):
     shutil.rmtree(t["tmp"], ignore_errors=True)
+
+
+# ---------------------------------------------------------------------------------
+# line protocol
+
+
+def classify_raised(t):
+    ex = t["raised_obj"]
+    if ex is None:
+        return None
+    if id(ex) in t["dlg"]._attributed:
+        return "env"
+    import re
+    msg = str(ex)
+    if isinstance(ex, ValueError):
+        m = re.match(r"Trial - (\d+) failed", msg)
+        if m:
+            return "failed:" + m.group(1)
+        m = re.match(r"trial (\d+) completed and no metrics got observed", msg)
+        if m:
+            return "no-metrics:" + m.group(1)
+    if isinstance(ex, AssertionError):
+        return "assertion"
+    if isinstance(ex, KeyError):
+        return "key-error"
+    return "other:" + type(ex).__name__
+
+
+def rows_wire(t):
+    """rows of the real StoreResultsCallback as [tid, rid, cfg-token, decision, status]; the rid of row k is
+    the rid of the k-th `cb result` event that returned (content equality is checked by monitor_c17)"""
+    if t["rows"] is None:
+        return None
+    dlg = t["dlg"]
+    rids = [e["call"][3] for e in dlg.entries if e["call"][:2] == ["cb", "result"] and e["ans"] == {"ret": True}]
+    out = []
+    for i, row in enumerate(t["rows"]):
+        cfg = {k[len("config_"):]: v for k, v in row.items() if k.startswith("config_")}
+        tok = None
+        for j, c in enumerate(dlg.cfgs):
+            if same_config(c, cfg):
+                tok = j
+                break
+        out.append([int(row[ST_TRIAL_ID]), rids[i] if i < len(rids) else -1, tok, row[ST_DECISION], row[ST_STATUS]])
+    return out
+
+
+def to_lines(t):
+    dlg = t["dlg"]
+    entries = dlg.entries
+    final = dict(t["final"])
+    final["raised"] = classify_raised(t)
+    final["rows"] = rows_wire(t)
+    lines = [(t["header"], {"call": entries[0]["call"]})]
+    for i, e in enumerate(entries):
+        if i + 1 < len(entries):
+            impl = {"call": entries[i + 1]["call"]}
+        else:
+            impl = {"call": ["exit"], "final": final}
+        lines.append(({"op": "ans", "ans": e["ans"], "_of": e["call"]}, impl))
+    return lines
+
+
+def _close(a, b):
+    """model exact value (wire) vs implementation float"""
+    if isinstance(a, str) and a in ("nan", "inf", "-inf"):
+        fb = float(b)
+        return (a == "nan" and math.isnan(fb)) or (a == "inf" and fb == math.inf) or (a == "-inf" and fb == -math.inf)
+    fa = float(Fraction(a))
+    fb = float(b)
+    if math.isnan(fb) or math.isinf(fb):
+        return False
+    return abs(fa - fb) <= 1e-9 * max(1.0, abs(fa), abs(fb))
+
+
+def _cmp_stat(where, impl, model):
+    for k in ("count", "min", "max", "is_num"):
+        if impl[k] != model[k]:
+            return f"{where}.{k}: impl {impl[k]} model {model[k]}"
+    ms = {int(k): v for k, v in model["sum"]}
+    isum = {int(k): v for k, v in impl["_sum"].items()}
+    if set(ms) != set(isum):
+        return f"{where}.sum keys: impl {sorted(isum)} model {sorted(ms)}"
+    for k in ms:
+        if not _close(ms[k], isum[k]):
+            return f"{where}.sum[{k}]: impl {isum[k]} model {ms[k]}"
+    return None
+
+
+def compare(inp, impl, model):
+    if impl is None:
+        return None
+    if "err" in model:
+        return f"model error {model['err']}"
+    mo = model.get("out", {})
+    if mo.get("call") != impl["call"]:
+        return f"next call: impl {impl['call']} model {mo.get('call')}"
+    if "final" in impl:
+        fi, fm = impl["final"], mo.get("final")
+        if fm is None:
+            return "model gave no final summary"
+        ri, rm = fi["raised"], fm["raised"]
+        if ri != rm and not (rm == "env" and ri is not None and ri.startswith("other:")):
+            return f"raised: impl {ri} model {rm}"
+        if "started" not in fi:
+            return None
+        for k in ("started", "completed", "failed", "finished", "running", "last", "best0", "best"):
+            if fi[k] != fm[k]:
+                return f"final.{k}: impl {fi[k]} model {fm[k]}"
+        d = _cmp_stat("overall", fi["overall"], fm["overall"])
+        if d:
+            return d
+        if [t for t, _ in fi["per_trial"]] != [t for t, _ in fm["per_trial"]]:
+            return f"per_trial order: impl {[t for t, _ in fi['per_trial']]} model {[t for t, _ in fm['per_trial']]}"
+        for (t, a), (_, b) in zip(fi["per_trial"], fm["per_trial"]):
+            d = _cmp_stat(f"trial[{t}]", a, b)
+            if d:
+                return d
+        if not _close(fm["cost"], float(Fraction(fi["cost"])) if fi["cost"] not in ("nan", "inf", "-inf") else float(fi["cost"])):
+            return f"cost: impl {fi['cost']} model {fm['cost']}"
+        if fi["rows"] is not None and fi["rows"] != fm["rows"]:
+            return f"rows: impl {fi['rows'][:6]} model {fm['rows'][:6]} (lengths {len(fi['rows'])}/{len(fm['rows'])})"
+        if fi["rows"] is None and fm["rows"]:
+            return "model has rows without a StoreResultsCallback"
+    return None
+
+
+# ---------------------------------------------------------------------------------
+# generator
+
+
+HB_TYPES = ["stopping", "promotion", "pasha", "cost_promotion", "rush_stopping", "rush_promotion"]
+INTERESTING = {"be.stop", "be.pause", "be.resume", "be.delete", "be.copy", "be.busy", "sched.complete", "sched.error",
+               "sched.removable", "cb.sleep", "be.stdout", "clock"}
+
+
+def gen_scheduler(rng, sim):
+    u = rng.random()
+    if u < 0.34:
+        multi = rng.random() < 0.3
+        sp = {"kind": "script", "params": {
+            "p_stop": rng.choice([0.0, 0.1, 0.25]), "p_pause": rng.choice([0.0, 0.1, 0.25]),
+            "p_resume": rng.choice([0.2, 0.5]), "p_ckpt": rng.choice([0.0, 0.2]),
+            "max_suggest": rng.choice([None, None, 3, 6, 12]), "p_removable": rng.choice([0.0, 0.3])},
+            "ckpt_mixin": rng.random() < 0.5}
+        if multi:
+            sp["metric_names"] = [METRIC, METRIC2]
+            sp["modes"] = rng.choice([["min", "max"], ["max", "min"], "min", "max"])
+        else:
+            sp["modes"] = rng.choice(["min", "max"])
+        return sp
+    mode = rng.choice(["min", "max"])
+    kinds = ["fifo"] * 3 + ["hb"] * 6 + ["sync", "sync", "dehb", "pbt", "pbt", "moasha", "median"]
+    k = rng.choice(kinds)
+    sp = {"kind": k, "mode": mode}
+    if k == "fifo":
+        sp["searcher"] = rng.choice(["random", "grid", "bayesopt"]) if sim else rng.choice(["random", "bayesopt"])
+    elif k == "hb":
+        sp["type"] = rng.choice(HB_TYPES)
+        sp["reduction_factor"] = rng.choice([2, 3])
+        sp["brackets"] = rng.choice([1, 1, 2])
+        sp["max_resource_attr"] = rng.random() < 0.4 and sp["type"] not in ("pasha",)
+    elif k in ("sync", "dehb"):
+        sp["reduction_factor"] = rng.choice([2, 3])
+        sp["brackets"] = rng.choice([None, 1, 2])
+        sp["max_resource_attr"] = rng.random() < 0.4
+    elif k == "pbt":
+        sp["population_size"] = rng.choice([2, 3, 4])
+        sp["perturbation_interval"] = rng.choice([1, 2])
+        sp["quantile_fraction"] = rng.choice([0.25, 0.34, 0.5])
+    elif k == "moasha":
+        sp["modes"] = rng.choice([["min", "max"], ["min", "min"], ["max", "max"]])
+        sp["reduction_factor"] = rng.choice([2, 3])
+    elif k == "median":
+        sp["grace_population"] = rng.choice([1, 2, 3])
+    return sp
+
+
+def gen_criterion(rng, sim, style):
+    c = {}
+    fields = ["max_num_trials_started", "max_num_trials_completed", "max_num_trials_finished", "max_num_evaluations",
+              "max_wallclock_time", "max_metric_value", "min_metric_value"]
+    if style in ("cost", "rich") and not sim:
+        fields.append("max_cost")
+    for f in rng.sample(fields, rng.choice([1, 1, 2, 3])):
+        if f == "max_num_trials_started":
+            c[f] = rng.randint(0, 9)
+        elif f in ("max_num_trials_completed", "max_num_trials_finished"):
+            c[f] = rng.randint(0, 5)
+        elif f == "max_num_evaluations":
+            c[f] = rng.randint(0, 25)
+        elif f == "max_wallclock_time":
+            c[f] = frac_str(rng.randint(1, 24) / 4.0)
+        elif f == "max_cost":
+            c[f] = frac_str(rng.randint(1, 40) / 8.0)
+        elif f == "max_metric_value":
+            c[f] = {rng.choice([METRIC, RES, AUX]): frac_str(rng.randint(2, 14) / 4.0)}
+        else:
+            c[f] = {rng.choice([METRIC, AUX]): frac_str(rng.randint(0, 8) / 4.0)}
+    # backstop so that every run ends
+    if not any(k in c for k in ("max_num_trials_started", "max_num_evaluations", "max_wallclock_time")):
+        c["max_num_evaluations"] = rng.randint(20, 40)
+    return c
+
+
+def gen_spec(rng, tier):
+    sim = rng.random() < 0.22
+    sp = gen_scheduler(rng, sim)
+    style = rng.choice(["plain", "plain", "cost", "rich"])
+    if sp["kind"] == "hb" and sp.get("type") == "cost_promotion":
+        style = "cost"
+    swd = rng.random() < 0.6
+    spec = {
+        "seed": rng.randrange(10 ** 9),
+        "backend": "sim" if sim else "script",
+        "scheduler": sp,
+        "n_workers": rng.randint(1, 5),
+        "max_t": rng.choice([3, 4, 6, 9]),
+        "flags": {"async": rng.random() < 0.8, "wait": rng.random() < 0.3, "swd": swd},
+        "criterion": gen_criterion(rng, sim, style),
+        "max_failures": rng.choice([0, 1, 1, 2, 3]),
+        "delete_checkpoints": (not sim) and rng.random() < 0.5,
+        "cb_store": rng.random() < 0.85,
+        "store_every": rng.random() < 0.1,
+        "inject": rng.randrange(1, 160) if rng.random() < 0.15 else None,
+        "clock_step": rng.choice([0.25, 0.5, 1.0]),
+    }
+    if sim:
+        spec["sim"] = {"d_result": rng.randint(0, 2), "d_complete": rng.randint(0, 3), "d_cstop": rng.randint(0, 2),
+                       "d_start": rng.randint(0, 2), "d_stop": rng.randint(0, 2), "sleep": rng.randint(1, 8),
+                       "bb_seed": rng.randint(0, 1), "support_checkpointing": rng.random() < 0.8}
+    else:
+        real = sp["kind"] != "script"
+        spec["backend_params"] = {
+            "p_fail": rng.choice([0.0, 0.0, 0.15, 0.3]),
+            "p_extstop": rng.choice([0.0, 0.0, 0.1]),
+            "max_batch": rng.randint(1, 3),
+            "p_end_same_poll": rng.choice([0.0, 0.5, 1.0]),
+            "stop_delay": 0 if swd else rng.choice([0, 0, 1, 2]),
+            "p_finish_at_busy": 0.0 if swd else rng.choice([0.0, 0.0, 0.3]),
+            "style": style,
+            "nan_metric": (not real or sp["kind"] == "fifo" and sp.get("searcher") == "random") and style == "rich" and rng.random() < 0.5,
+            "short_runs": None if real else rng.choice([None, 1, 2]),
+        }
+    return spec
+
+
+def call_kinds(t):
+    out = set()
+    for e in t["dlg"].entries:
+        c = e["call"]
+        out.add(c[0] if len(c) == 1 else c[0] + "." + c[1])
+    return sorted(out)
+
+
+def decisive_fields(t):
+    """which atoms of the criterion hold on the final status (direct reading of StoppingCriterion)"""
+    ts = t["tuner"].tuning_status
+    out = []
+    if ts is None:
+        return out
+    c = t["spec_criterion"]
+    ov = ts.overall_metric_statistics
+    if "max_num_trials_started" in c and ts.num_trials_started > c["max_num_trials_started"]:
+        out.append("max_num_trials_started")
+    if "max_num_trials_completed" in c and ts.num_trials_completed > c["max_num_trials_completed"]:
+        out.append("max_num_trials_completed")
+    if "max_num_trials_finished" in c and ts.num_trials_finished > c["max_num_trials_finished"]:
+        out.append("max_num_trials_finished")
+    if "max_num_evaluations" in c and ov.count > c["max_num_evaluations"]:
+        out.append("max_num_evaluations")
+    if "max_cost" in c and ts.cost > float(Fraction(c["max_cost"])):
+        out.append("max_cost")
+    if "max_wallclock_time" in c:
+        out.append("max_wallclock_time?")
+    for k, above in (("max_metric_value", True), ("min_metric_value", False)):
+        if k in c and ov.count > 0:
+            obs = ov.max_metrics if above else ov.min_metrics
+            for name, thr in c[k].items():
+                if name in obs and ((obs[name] > float(Fraction(thr))) if above else (obs[name] < float(Fraction(thr)))):
+                    out.append(k)
+    return out
+
+
+def histogram(t):
+    h = {}
+    for k in call_kinds(t):
+        h["call:" + k] = 1
+    h["backend:" + ("sim" if t["header"]["sim_callback"] else "script")] = 1
+    h["sched:" + t["sched_label"]] = 1
+    for f in ("async", "wait", "swd", "delete_checkpoints", "ckpt_cb", "store"):
+        h[f"{f}={t['header'][f]}"] = 1
+    h["exit:" + str(classify_raised(t)).split(":")[0]] = 1
+    for f in decisive_fields(t):
+        h["criterion-true-at-exit:" + f] = 1
+    h["n_calls"] = len(t["dlg"].entries)
+    for e in t["dlg"].entries:
+        a = e["ans"]
+        if isinstance(a, dict) and "d" in a:
+            h["decision:" + str(a["d"])] = h.get("decision:" + str(a["d"]), 0) + 1
+        if isinstance(a, dict) and a.get("kind"):
+            h["suggestion:" + a["kind"] + ("+ckpt" if a.get("ckpt") is not None else "")] = h.get("suggestion:" + a["kind"] + ("+ckpt" if a.get("ckpt") is not None else ""), 0) + 1
+        if isinstance(a, dict) and "results" in a:
+            for _, st in a["status"]:
+                h["polled:" + st] = h.get("polled:" + st, 0) + 1
+    if any(x is not None for x in [t["dlg"].inject_at]) and any(e["ans"] == {"raise": "InjectedError"} for e in t["dlg"].entries):
+        h["injected-exception-hit"] = 1
+    return h
+
+
+# ---------------------------------------------------------------------------------
+# monitors: direct readings of the property statements on the recorded dialogue
+
+
+def F(sig, what, detail=None):
+    return {"signature": sig, "what": what, "detail": detail}
+
+
+def _calls(t):
+    return [(i, e["call"], e["ans"]) for i, e in enumerate(t["dlg"].entries)]
+
+
+def is_pbt(t):
+    return type(t["scheduler"]).__name__ == "PopulationBasedTraining"
+
+
+def monitor_k(t):
+    """contract K of the scheduler, monitored on every trace"""
+    out = []
+    state = {}  # trial -> "live" | "paused" | "dead" | "failed"
+    starts = 0
+    for i, c, a in _calls(t):
+        if c[:2] == ["sched", "result"] and isinstance(a, dict) and "d" in a:
+            d = a["d"]
+            if d not in ("CONTINUE", "PAUSE", "STOP"):
+                out.append(F("c01:scheduler-contract-K:bad-decision", f"on_trial_result returned {d!r}", {"call": i}))
+            elif d == "PAUSE":
+                if state.get(c[2]) != "failed":
+                    state[c[2]] = "paused"
+            elif d == "STOP":
+                state[c[2]] = "dead"
+        elif c[:2] == ["sched", "error"]:
+            state[c[2]] = "failed"
+        elif c[:2] == ["sched", "complete"]:
+            state[c[2]] = "dead"
+        elif c[:2] == ["be", "start"] and a == {"ret": True}:
+            starts += 1
+            state[c[2]] = "live"
+        elif c[:2] == ["sched", "suggest"] and isinstance(a, dict):
+            if a.get("kind") == "resume":
+                st = state.get(a["id"])
+                if st == "failed":
+                    out.append(F("c01:scheduler-contract-K:resume-after-failure",
+                                 f"scheduler {t['sched_label']} resumes trial {a['id']} after its failure", {"call": i}))
+                elif st != "paused":
+                    out.append(F("c01:scheduler-contract-K:resume-not-paused",
+                                 f"scheduler {t['sched_label']} resumes trial {a['id']} whose last decision was not PAUSE (state {st})", {"call": i}))
+                state[a["id"]] = "live"
+            elif a.get("kind") == "start" and a.get("ckpt") is not None and not (0 <= a["ckpt"] < starts):
+                out.append(F("c01:scheduler-contract-K:ckpt-unknown-trial",
+                             f"scheduler {t['sched_label']} warm-starts from trial {a['ckpt']} which was never started", {"call": i}))
+    return out
+
+
+LEGAL_EDGE = {
+    None: {Status.in_progress},
+    Status.in_progress: {Status.in_progress, Status.paused, Status.stopped, Status.stopping, Status.completed, Status.failed},
+    Status.stopping: {Status.stopping, Status.stopped, Status.completed, Status.failed},
+    Status.paused: {Status.paused, Status.in_progress},
+    Status.stopped: {Status.stopped},
+    Status.completed: {Status.completed},
+    Status.failed: {Status.failed},
+}
+
+
+def monitor_c01(t):
+    out = []
+    n = t["header"]["n_workers"]
+    calls = _calls(t)
+    # budget: trials occupying workers (backend truth) and the polled set
+    for i, c, a in calls:
+        occ = t["dlg"].entries[i].get("_occ")
+        if occ is not None and occ > n:
+            out.append(F("c01:budget-exceeded", f"{occ} trials occupy workers with n_workers={n}", {"call": i}))
+            break
+        if c[:2] == ["be", "fetch"] and (len(c[2]) > n or len(set(c[2])) != len(c[2])):
+            out.append(F("c01:budget-exceeded", f"running set {c[2]} with n_workers={n}", {"call": i}))
+            break
+    # ids
+    starts = 0
+    for i, c, a in calls:
+        if c[:2] == ["sched", "suggest"] and c[2] != starts:
+            out.append(F("c01:id-sequence", f"suggest called with trial_id {c[2]} after {starts} starts", {"call": i}))
+        if c[:2] == ["be", "start"]:
+            if c[2] != starts:
+                out.append(F("c01:id-sequence", f"start number {starts} carries id {c[2]}", {"call": i}))
+            if a == {"ret": True}:
+                starts += 1
+    # lifecycle on the statuses the loop records (snapshots after every iteration, then the final one)
+    seq = {}
+    snaps = list(t["recorder"].snapshots)
+    ts = t["tuner"].tuning_status
+    if ts is not None:
+        snaps.append(dict(ts.last_trial_status_seen))
+    for snap in snaps:
+        for tid, st in snap.items():
+            prev = seq.get(tid)
+            if st not in LEGAL_EDGE.get(prev, set()):
+                out.append(F("c01:illegal-status-edge", f"trial {tid} moved {prev} -> {st}", None))
+            seq[tid] = st
+    # only a paused trial is resumed
+    for idx, tid, st in t["dlg"].resume_status:
+        if st != Status.paused:
+            out.append(F("c01:resume-of-non-paused", f"resume_trial({tid}) while its backend status is {st}", {"call": idx}))
+    # notifications: add/resume, results, exactly one end, nothing afterwards
+    open_run = {}  # trial -> "open" | "closed"
+    last_fetch = max([i for i, c, a in calls if c[:2] == ["be", "fetch"]], default=-1)
+    polled = {}
+    run_start = {}
+    for i, c, a in calls:
+        if c[:2] == ["sched", "add"]:
+            if c[2] in open_run:
+                out.append(F("c01:notify-add-twice", f"on_trial_add twice for trial {c[2]}", {"call": i}))
+            open_run[c[2]] = "open"
+            run_start[c[2]] = i
+        elif c[:2] == ["be", "resume"] and a == {"ret": True}:
+            if open_run.get(c[2]) == "open":
+                out.append(F("c01:resume-of-open-run", f"trial {c[2]} resumed while its run is open", {"call": i}))
+            open_run[c[2]] = "open"
+            run_start[c[2]] = i
+        elif c[:2] == ["sched", "result"]:
+            if open_run.get(c[2]) != "open":
+                out.append(F("c01:result-after-end", f"on_trial_result for trial {c[2]} outside a run", {"call": i}))
+        elif c[0] == "sched" and c[1] in ("remove", "complete", "error"):
+            if open_run.get(c[2]) != "open":
+                out.append(F("c01:end-notified-twice",
+                             f"on_trial_{c[1]} for trial {c[2]} whose run end was already notified", {"call": i}))
+            open_run[c[2]] = "closed"
+        elif c[:2] == ["be", "fetch"]:
+            for tid in c[2]:
+                polled.setdefault(tid, []).append(i)
+    # every end of a run that became visible before the last poll is notified
+    be = t["backend"]
+    if isinstance(be, ScriptBackend):
+        for tid, tr in be.truth.items():
+            ended = tr.get("ended_at")
+            if ended is None or open_run.get(tid) != "open":
+                continue
+            later_polls = [i for i in range(ended + 1, last_fetch + 1) if t["dlg"].entries[i]["call"][:2] == ["be", "fetch"]]
+            if not later_polls:
+                continue
+            was_polled = any(i > run_start.get(tid, -1) for i in polled.get(tid, []))
+            if not was_polled or all(tid not in t["dlg"].entries[i]["call"][2] for i in later_polls):
+                out.append(F("c01:trial-never-polled-after-rebind",
+                             f"trial {tid} ({tr['status']}) was started but is missing from every later poll "
+                             f"(start_jobs_without_delay={t['header']['swd']}): its results and its end never reach the scheduler",
+                             {"trial": tid, "ended_at": ended}))
+            else:
+                out.append(F("c01:end-never-notified", f"end of trial {tid} ({tr['status']}) never told to the scheduler", {"trial": tid}))
+    return out
+
+
+def monitor_c13_loop(t):
+    out = []
+    calls = _calls(t)
+    raised = classify_raised(t)
+    # one on_trial_error per failed / externally stopped run
+    sched_stopped = set()
+    i = 0
+    while i < len(calls):
+        idx, c, a = calls[i]
+        if c[:2] == ["be", "fetch"] and isinstance(a, dict) and "status" in a:
+            j = i + 1
+            seg = []
+            while j < len(calls) and calls[j][1][:2] != ["be", "fetch"] and calls[j][1] != ["cb", "loop_end"]:
+                seg.append(calls[j])
+                j += 1
+            aborted = any(isinstance(x[2], dict) and "raise" in x[2] for x in seg) or (j >= len(calls) and raised is not None) \
+                or any(x[1] == ["cb", "tuning_end"] for x in seg)
+            for _, cc, aa in seg:
+                if cc[:2] == ["sched", "result"] and isinstance(aa, dict) and aa.get("d") == "STOP":
+                    sched_stopped.add(cc[2])
+            for tid, st in a["status"]:
+                want = st == Status.failed or (st == Status.stopped and tid not in sched_stopped)
+                got = sum(1 for _, cc, _ in seg if cc == ["sched", "error", tid])
+                if want and got == 0 and not aborted:
+                    out.append(F("c13:failure-not-notified", f"trial {tid} polled as {st}: no on_trial_error", {"call": idx}))
+                if got > 1 or (got == 1 and not want):
+                    out.append(F("c13:failure-notified-twice", f"trial {tid} polled as {st}: {got} on_trial_error calls", {"call": idx}))
+            i = j
+        else:
+            i += 1
+    fin = t["final"]
+    if "failed" in fin and raised != "env":
+        mf = t["header"]["max_failures"]
+        if fin["failed"] > mf:
+            if raised is None or not raised.startswith("failed:"):
+                out.append(F("c13:abort-without-error", f"{fin['failed']} failures > max_failures={mf} but run() ended with {raised}"))
+            else:
+                tid = int(raised.split(":")[1])
+                if dict((a, b) for a, b in fin["last"]).get(tid) != Status.failed:
+                    out.append(F("c13:abort-names-non-failed", f"error names trial {tid} which did not fail"))
+        elif raised is not None and raised.startswith("failed:"):
+            out.append(F("c13:abort-below-limit", f"run() aborted with {raised} although failures {fin['failed']} <= {mf}"))
+    return out
+
+
+def monitor_c20_loop(t):
+    out = []
+    calls = _calls(t)
+    deleted = set()
+    removable = set()
+    in_final = False
+    prev = None
+    for i, c, a in calls:
+        if c == ["be", "all_results"]:
+            in_final = True
+        if c[:2] == ["sched", "removable"] and isinstance(a, dict) and "ids" in a:
+            removable |= set(a["ids"])
+        if c[:2] == ["be", "delete"]:
+            tid = c[2]
+            ok = in_final or tid in removable or (prev is not None and prev == ["be", "stop", tid])
+            if not ok:
+                out.append(F("c20:unexpected-delete", f"checkpoint of trial {tid} deleted without STOP / removable / end of tuning", {"call": i}))
+            if a == {"ret": True}:
+                deleted.add(tid)
+        if c[:2] in (["be", "start"], ["be", "resume"]) and a == {"ret": True}:
+            if c[:2] == ["be", "resume"] and c[2] in deleted:
+                out.append(F("c20:resume-without-checkpoint", f"trial {c[2]} resumed after its checkpoint was deleted", {"call": i}))
+            deleted.discard(c[2])  # a running trial writes a checkpoint again
+        if c[:2] == ["be", "copy"] and c[2] in deleted:
+            sig = "c20:pbt-source-checkpoint-deleted" if is_pbt(t) else "c20:copy-from-deleted-checkpoint"
+            out.append(F(sig, f"new trial {c[3]} is warm-started from trial {c[2]} whose checkpoint was deleted before (copy_checkpoint "
+                              f"answered {a})", {"call": i}))
+        prev = c
+    return out
